@@ -16,56 +16,56 @@ theorem kept_isSome {c c' : Ctx} (hk : HandlesKept c c') {h : Handle} (hs : (c.n
   rw [hm']; rfl
 
 /-- one call: the answer is the specified one, and everything needed for the next call holds -/
-theorem rstep_ok {c : Ctx} (hc : CInv c) (hwf : WF c.input) (op : ROp)
+theorem rstep_ok {c : Ctx} (hc : CInv c) (op : ROp)
     (hv : match op.handle? with | some h => (c.nodeAt? h).isSome | none => True) :
     (c.rstep op).2 = Spec.answer c.input c.roots.size op ∧
     CInv (c.rstep op).1 ∧ (c.rstep op).1.input = c.input ∧
-    (c.rstep op).1.roots.size = op.nextRoots c.roots.size ∧
+    (c.rstep op).1.roots.size = op.nextRoots c.input c.roots.size ∧
     HandlesKept c (c.rstep op).1 ∧ (∀ x ∈ (c.rstep op).2.handles, ((c.rstep op).1.nodeAt? x).isSome) := by
   cases op with
   | root =>
-    obtain ⟨h1, h2, h3, _, h5, h6, h7⟩ := inputGet_ok hc hwf
+    obtain ⟨h1, h2, h3, _, h5, h6, h7⟩ := inputGet_ok hc
     exact ⟨by simp only [Ctx.rstep, Spec.answer, h1], h2, h3, h5, h6, handleOK_handles h7⟩
   | atIndex h i =>
     obtain ⟨m, hm⟩ := Option.isSome_iff_exists.mp hv
-    obtain ⟨h1, h2⟩ := getAtIndex_node_ok hc hwf hm i
+    obtain ⟨h1, h2⟩ := getAtIndex_node_ok hc hm i
     exact ⟨by simp only [Ctx.rstep, Spec.answer, h1], h2.inv, h2.input, h2.nroots, h2.kept, handleOK_handles h2.handle⟩
   | keyAt h i =>
     obtain ⟨m, hm⟩ := Option.isSome_iff_exists.mp hv
-    obtain ⟨h1, h2⟩ := getKeyAtIndex_node_ok hc hwf hm i
+    obtain ⟨h1, h2⟩ := getKeyAtIndex_node_ok hc hm i
     exact ⟨by simp only [Ctx.rstep, Spec.answer, h1], h2.inv, h2.input, h2.nroots, h2.kept, handleOK_handles h2.handle⟩
   | prop h q =>
     obtain ⟨m, hm⟩ := Option.isSome_iff_exists.mp hv
-    obtain ⟨h1, h2⟩ := getObjProp_node_ok hc hwf hm q
+    obtain ⟨h1, h2⟩ := getObjProp_node_ok hc hm q
     exact ⟨by simp only [Ctx.rstep, Spec.answer, h1], h2.inv, h2.input, h2.nroots, h2.kept, handleOK_handles h2.handle⟩
   | len h =>
     obtain ⟨m, hm⟩ := Option.isSome_iff_exists.mp hv
-    obtain ⟨h1, _⟩ := getValLen_node_ok hc hwf hm
+    obtain ⟨h1, _⟩ := getValLen_node_ok hc hm
     exact ⟨by simp only [Ctx.rstep, Spec.answer, h1], hc, rfl, rfl, HandlesKept.refl c, by simp [Ctx.rstep, RAns.handles]⟩
   | strOff h =>
     obtain ⟨m, hm⟩ := Option.isSome_iff_exists.mp hv
-    obtain ⟨_, h1⟩ := getValLen_node_ok hc hwf hm
+    obtain ⟨_, h1⟩ := getValLen_node_ok hc hm
     exact ⟨by simp only [Ctx.rstep, Spec.answer, h1], hc, rfl, rfl, HandlesKept.refl c, by simp [Ctx.rstep, RAns.handles]⟩
 
 /-- **every history**: any finite sequence of read calls on handles the client was given -/
-theorem rrun_ok : ∀ (ops : List ROp) (c : Ctx) (issued : List Handle), CInv c → WF c.input →
+theorem rrun_ok : ∀ (ops : List ROp) (c : Ctx) (issued : List Handle), CInv c →
     (∀ h ∈ issued, (c.nodeAt? h).isSome) → Spec.respects c.input c.roots.size issued ops →
     (c.rrun ops).1 = Spec.run c.input c.roots.size ops ∧ CInv (c.rrun ops).2 ∧ (c.rrun ops).2.input = c.input
-  | [], c, issued, hc, _, _, _ => ⟨rfl, hc, rfl⟩
-  | op :: ops, c, issued, hc, hwf, hiss, hresp => by
+  | [], c, issued, hc, _, _ => ⟨rfl, hc, rfl⟩
+  | op :: ops, c, issued, hc, hiss, hresp => by
     simp only [Spec.respects] at hresp
     obtain ⟨huse, hrest⟩ := hresp
     have hv : match op.handle? with | some h => (c.nodeAt? h).isSome | none => True := by
       cases hh : op.handle? with
       | none => trivial
       | some h => rw [hh] at huse; exact hiss h huse
-    obtain ⟨h1, h2, h3, h4, h5, h6⟩ := rstep_ok hc hwf op hv
+    obtain ⟨h1, h2, h3, h4, h5, h6⟩ := rstep_ok hc op hv
     have hiss' : ∀ h ∈ (Spec.answer c.input c.roots.size op).handles ++ issued, ((c.rstep op).1.nodeAt? h).isSome := by
       intro h hh
       rcases List.mem_append.mp hh with hh | hh
       · rw [← h1] at hh; exact h6 h hh
       · exact kept_isSome h5 (hiss h hh)
-    have := rrun_ok ops (c.rstep op).1 _ h2 (by rw [h3]; exact hwf) hiss' (by rw [h3, h4]; exact hrest)
+    have := rrun_ok ops (c.rstep op).1 _ h2 hiss' (by rw [h3, h4]; exact hrest)
     obtain ⟨g1, g2, g3⟩ := this
     simp only [Ctx.rrun, Spec.run]
     refine ⟨by rw [h1, g1, h3, h4], g2, by rw [g3, h3]⟩
